@@ -300,7 +300,7 @@ theorem learn_is_dictionary_call_linked {ctx : LearnCtx} {u u' : UserMap} {m : M
     schedules + C09's snapshot lemma + C09's answers of a settled state) and `C09.layered_over_map`.
     The file is C09's abstract `List Leaf` here; `learned_persists_bytes_linked` below has it as bytes. -/
 theorem learned_persists_linked (t0 : List Leaf) (h0 : Trie.SnapOk t0) (tmp : Option DictLink.CFile)
-    (htmp : DictLink.TmpOk tmp) (acts : List DictLink.CAct) (hok : ∀ a ∈ acts, DictLink.CActOk a)
+    (htmp : DictLink.TmpOk tmp) (acts : List DictLink.CAct)
     (cw : DictLink.CWorld) (hrun : DictLink.crun (DictLink.cinit t0 tmp) acts = some cw)
     (hcl : cw.phase = .closed)
     (u : UserMap) (hu : LearnLink.URep u (MapSpec.Map.run (TrieBuf.baseGet t0) (DictLink.opsOf acts)))
@@ -310,7 +310,7 @@ theorem learned_persists_linked (t0 : List Leaf) (h0 : Trie.SnapOk t0) (tmp : Op
         p.text = x ∧ u.get? (key, x) = some (MapSpec.valOf p)) ∧
       ∃ p ∈ Layered.lookupAll (sys ++ [TrieBuf.toDict (DictLink.freshSt t)]) key .standard,
         p.text = x ∧ 1 ≤ p.freq :=
-  LearnLink.persists_linked t0 h0 tmp htmp acts hok cw hrun hcl u hu key x hlive sys
+  LearnLink.persists_linked t0 h0 tmp htmp acts cw hrun hcl u hu key x hlive sys
 
 /-- **… and with the file as bytes**: nothing about files is assumed any more.  The chain is
     `C11` (the bytes `TrieBuilder::write` produces, read by `Trie::new` / `lookup_all_phrases`, are the
@@ -325,7 +325,7 @@ theorem learned_persists_linked (t0 : List Leaf) (h0 : Trie.SnapOk t0) (tmp : Op
 theorem learned_persists_bytes_linked (info : TrieCodec.Info) (hinfo : TrieCodec.ValidInfo info)
     (es0 : List Entry) (hv0 : ∀ e ∈ es0, TrieCodec.ValidEntry e) (hfit0 : C10.FitsInfo info es0)
     (tmp : Option DictLink.CFile) (htmp : DictLink.TmpWritten (C10.FitsInfo info) tmp)
-    (acts : List DictLink.CAct) (hok : ∀ a ∈ acts, DictLink.CActOk a) (hval : ∀ a ∈ acts, DictLink.CActValid a)
+    (acts : List DictLink.CAct) (hval : ∀ a ∈ acts, DictLink.CActValid a)
     (hfit : DictLink.SnapshotsOk (C10.FitsInfo info) (DictLink.cinit (Trie.build es0) tmp) acts)
     (cw : DictLink.CWorld) (hrun : DictLink.crun (DictLink.cinit (Trie.build es0) tmp) acts = some cw)
     (hcl : cw.phase = .closed)
@@ -337,7 +337,7 @@ theorem learned_persists_bytes_linked (info : TrieCodec.Info) (hinfo : TrieCodec
       TrieBuf.lookupAll (DictLink.freshSt (Trie.build es)) key .standard = dedup (TrieCodec.lookupAll tr key .standard) ∧
       ∃ p ∈ Layered.lookupAll (sys ++ [TrieBuf.toDict (DictLink.freshSt (Trie.build es))]) key .standard,
         p.text = x ∧ 1 ≤ p.freq :=
-  LearnLink.persists_bytes_linked info hinfo es0 hv0 hfit0 tmp htmp acts hok hval hfit cw hrun hcl u hu key hkey x hlive sys
+  LearnLink.persists_bytes_linked info hinfo es0 hv0 hfit0 tmp htmp acts hval hfit cw hrun hcl u hu key hkey x hlive sys
 
 /-! ## "repeating … a bounded number of times makes X the default" -/
 
